@@ -35,6 +35,7 @@ def cases_for(ctx):
     cases.append({'behaviours': ['hang', 'exit', 'late', 'equal', 'different'], 'dedicated': True, 'recycle': 3, 'keep': True})
     cases.append({'behaviours': ['exit', 'exit', 'equal'], 'dedicated': True, 'recycle': 5, 'keep': False})
     cases.append({'behaviours': ['equal', 'late', 'late', 'equal'], 'dedicated': True, 'recycle': 2, 'keep': True})
+    cases.append({'behaviours': ['equal', 'die_idle', 'equal', 'different', 'equal', 'equal'], 'dedicated': True, 'recycle': 5, 'keep': True})
     cases.append({'behaviours': ['bare_status', 'different', 'player_raises'], 'dedicated': False, 'recycle': 5, 'keep': False, 'pair': 'B'})
     cases.append({'behaviours': ['bare_status', 'different', 'player_raises'], 'dedicated': True, 'recycle': 1, 'keep': False, 'pair': 'B'})
     if ctx.quick:
@@ -88,6 +89,9 @@ def judge(ctx, case, res, w):
         ww = dict(w, position=i, behaviour=b, got=r['status'], message=(r['message'] or '')[:120])
         if not r['is_comparator_result']:
             ctx.violation('verdict is not wrapped into a ComparatorResult', ww)
+        if i > 0 and beh[i - 1] == H.IDLE_DEATH and case['dedicated']:
+            ctx.count('verdicts_unspecified_after_idle_worker_death')
+            continue
         if r['status'] != exp:
             prev = beh[:i]
             after_fault = any(x in H.FATAL for x in prev)
